@@ -8,14 +8,19 @@ Reference side only; the code under test is the real cflib.crazyflie.log / cflib
 * connect()        runs the real Log.refresh_toc -> RESET packet -> reset ack -> real _new_packet_cb (clears log_blocks, creates
                    the Toc); the TOC *download* (property C03) is replaced by StubTocFetcher, which installs the given
                    entries at once.
+* GuardedQueue     the real queue.Queue inside cflib.crazyflie.syncLogger, except that a get() that would block for ever raises
+                   WouldBlock (the harness is a single task) instead of hanging the check.
 * fw_*             firmware-side parsers of the settings channel (create/append V1/V2, start/stop/delete).
 * type table       log type ids, C names and byte sizes as the firmware defines them (log.h: LOG_UINT8=1 .. LOG_FP16=8).
 
 Nothing here imports the tables of cflib.crazyflie.log (LogTocElement.types) - the oracle has its own."""
+import queue as _queue
+
 import z3
 from crosshair.tracers import NoTracing
 
 import cflib.crazyflie.log as logmod
+import cflib.crazyflie.syncLogger as slmod
 from cflib.crazyflie.log import Log, LogTocElement
 from cflib.crtp.crtpstack import CRTPPacket
 from cflib.utils.callbacks import Caller
@@ -51,6 +56,21 @@ class StubTocFetcher:
 
 
 logmod.TocFetcher = StubTocFetcher
+
+
+class WouldBlock(Exception):
+    """A blocking Queue.get on an empty queue: the (single) task would wait for ever."""
+
+
+class GuardedQueue(_queue.Queue):
+    """The real queue.Queue; only a get() that would block for ever is turned into an error instead of a hang."""
+    def get(self, block=True, timeout=None):
+        if block and timeout is None and self.qsize() == 0:
+            raise WouldBlock('Queue.get() on an empty queue')
+        return super().get(block, timeout)
+
+
+slmod.Queue = GuardedQueue
 
 
 class LogCF(MiniCF):
